@@ -118,6 +118,12 @@ func TestSim(t *testing.T) {
 		line, _ := json.Marshal(map[string]interface{}{"prop": job.Prop, "enum_size": p.EnumSize(job.Tier), "race_build": RaceBuild})
 		wr.Write(line)
 		wr.WriteByte('\n')
+	case "shrinklist":
+		for _, c := range p.Shrink(job.Scenario) {
+			line, _ := json.Marshal(map[string]interface{}{"kind": "candidate", "scenario": c})
+			wr.Write(line)
+			wr.WriteByte('\n')
+		}
 	case "minimise":
 		scn, tape, o, tried := minimise(t, p, job.Scenario, job.Tape, job.Class, job.Deadline)
 		rec := &Record{Prop: job.Prop, Scenario: scn, Outcome: o, Enum: -1, Tried: tried}
